@@ -20,15 +20,21 @@ from run import Broken, Violation
 from builders import c12_amplify as M
 from builders import c12_limits as X
 from builders import c12_loopcheck, c12_loops as L
+from builders import c12_xmlcheck as XC
 from builders.c12_trace import Probe, StepLimit, Tracer
 
-GEN = ["Loops", "C12Consts"]
+GEN = ["Loops", "C12Consts", "C12Xml"]
 RULE = ("loops: per modelled loop a structured stream (BIFF records, JPEG segments, PPT record trees, BLIP records, DIB headers, "
         "PNG chunk chains, RTF token soup, 7z header properties) + a malformed stream over marker-rich alphabets + fixed "
         "adversarial cases (zero-length records, maximal lengths, markers at the last offsets); limits: sizes limit-1/limit/limit+1 "
         "for read_file (6 limits), the 7z archive size, ZIP/TAR/7z members (real payloads), TAR archives mixing regular members around "
         "the limit with hard links / symlinks (resolving, dangling, chained, forged header size) / directories / FIFOs, ODS sheets with "
-        "random repeat attributes on empty, non-empty and covered cells, <text:p> with text:s counts, XLSX used-cell sets within 30x30. "
+        "random repeat attributes on empty, non-empty and covered cells, <text:p> with text:s counts, XLSX used-cell sets within 30x30; "
+        "XML parts: random (BOM, leading whitespace, XML declaration, DOCTYPE, 0-4 internal entities made of literals / references to earlier "
+        "entities / &amp;, character data with references incl. undeclared ones) + nested-entity and quadratic blow-up parts, through the real "
+        "read_zip_xml_root; XML packages: every XML member of hand-written DOCX/PPTX/XLSX/ODT/ODS/ODP/ODG/ODF/EPUB packages and of the "
+        "repository's small fixtures x leading bytes (none, BOM, LF, CRLF, space, TAB+LF, BOM+LF, BOM+CRLF CRLF) x reference in root text / first "
+        "text node / attribute x other parts behind a blank line or not, nested entities (16-fold, 4 levels = 2 MiB if expanded) or quadratic blow-up. "
         "distinct = distinct (loop, input) / (limit site, size) pairs; non-trivial = non-empty input")
 ASSUMPTIONS = [
     "CPython semantics of slicing, int.from_bytes, struct.unpack, bytes.find, BytesIO.read/seek (modelled, tied by the correspondence)",
@@ -43,11 +49,18 @@ ASSUMPTIONS = [
     "copied, list cells allocated, members decoded / written",
     "pdf _TableExtractor._extract main loop and SharePoint pagination loops are not modelled (assumedLoops, reasons in Model/LoopInventory.lean)",
     "self-recursive functions are classified by reading only (recursiveByReading)",
+    "XML parts: the model covers internal GENERAL entities whose values refer to EARLIER entities, &amp; and literal ASCII text in the root's "
+    "character data; parameter entities, external entities, attribute defaults, character references and expat's own amplification limit "
+    "(factor 100 above 8 MiB) are not modelled — the package oracle is independent of the model and puts references into text, root and attribute positions",
+    "XML parts parsed by openpyxl (workbook, worksheets, shared strings, styles) have no call site in the package: the chain theorem does not "
+    "speak about them; the package oracle exercises them on every run (openpyxl uses defusedxml when it is installed)",
 ]
 TRUSTED = ["sys.settrace line events as iteration counter (harness/builders/c12_trace.py)",
            "minimal 7z writer harness/builders/c12_sevenzip.py (7zFormat.txt layout)",
            "CPython tarfile as TAR writer and as the reference for what a link member's handle delivers (harness/builders/c12_limits.py:tar_reference)",
-           "minimal ODF / XLSX writers harness/builders/c12_amplify.py; tools/gen/c12.py:_tar_loop_facts (evaluates the loop's type guards on real TarInfo objects)"]
+           "minimal ODF / XLSX writers harness/builders/c12_amplify.py; tools/gen/c12.py:_tar_loop_facts (evaluates the loop's type guards on real TarInfo objects)",
+           "tools/gen/c12.py:_xml_chains (XML parser calls, forbid_* keywords against the installed defusedxml's signature, enclosing except handlers "
+           "evaluated against the real exception hierarchy); package / part writers harness/builders/c12_xmlparts.py; tracemalloc as peak-memory meter"]
 
 MB = 1024 * 1024
 LINEAR_C = 2          # oracle: a byte scanner may use at most LINEAR_C * (len + 1) iterations
@@ -280,8 +293,10 @@ def correspondence(ctx):
     broken, mism = c12_loopcheck.run(ctx, Broken)
     ctx._c12_mismatches = mism
     broken += _limits_correspondence(ctx)
+    broken += XC.correspondence(ctx, Broken)
     ctx.sample({"loops": sorted(k for k in ctx.dist if k.startswith("loops/"))[:8]})
-    return {"broken": broken, "violations": []}
+    # the package oracle for entity constructs runs on every check (see builders/c12_xmlcheck.py for why)
+    return {"broken": broken, "violations": XC.sweep(ctx, Violation)}
 
 
 # ============================================================================ oracle (property statement on the real code)
@@ -695,6 +710,7 @@ def search(ctx, broken):
                 except ValueError:
                     pass
     vs = _oracle_limits(ctx) + _oracle_amplification(ctx) + _oracle_odf_text(ctx) + _oracle_xlsx(ctx) + _oracle_loops(ctx, extra)
+    vs += XC.sweep(ctx, Violation, full=True)
     # open known findings are reported by known_witnesses(); returning them here would hide a broken obligation
     # for which no NEW failing input exists (run.py then says `no-failing-input-found`)
     from run import load_known
@@ -788,6 +804,8 @@ def replay(ctx, payload):
         got = M.xlsx_extract(cells, dim=tuple(rep["dim"]) if rep.get("dim") else None)
         ok = max(got["data_cells"], got["all_rows_cells"]) <= AMP_K * got["input_len"] and got["text_len"] <= AMP_K * AMP_K * got["input_len"]
         return ok, f"XLSX with {len(cells)} used cells: {got['data_cells']} cells, {got['text_len']} characters from {got['input_len']} bytes"
+    if kind == "xml_entity":
+        return XC.replay(rep)
     if kind == "ods":
         rows = [(rr, [(cr, t) for cr, t in cells]) for rr, cells in rep["rows"]]
         got = X.ods_extract(rows)
